@@ -168,6 +168,31 @@ def s21_ops(ctx):
     ta, tb = WIDTHS['default'][0], WIDTHS[fs][0]
     used_table = set()
     n_sens = 0
+    # a private helper all of whose callers are constructor-like is constructor-like itself (a range check moved out of deserialize, ...)
+    callers = {}
+    for k0, a0 in fd.bodies.items():
+        if not a0['generic']:
+            continue
+        for blk in a0['blocks']:
+            t0 = blk['term']
+            if t0['t'] == 'call' and t0['callee'].get('local') and t0['callee'].get('def'):
+                callers.setdefault(t0['callee']['def'], set()).add(a0['def'].split('::{closure')[0])
+    memo = {}
+
+    def constructor_like(d, depth=0):
+        base = d.split('::{closure')[0]
+        if base in memo:
+            return memo[base]
+        fname_ = base.rsplit('::', 1)[-1]
+        if fname_ in CONSTRUCTOR_FNS:
+            memo[base] = True
+            return True
+        memo[base] = False
+        fn_ = fd.fns.get(base)
+        cs = callers.get(base) or set()
+        if depth < 4 and fn_ is not None and fn_.get('vis') != 'pub' and cs and all(constructor_like(c, depth + 1) for c in cs if c != base):
+            memo[base] = True
+        return memo[base]
     for k, a in sorted(fd.bodies.items()):
         if not a['generic']:
             continue
@@ -175,12 +200,14 @@ def s21_ops(ctx):
         if b is None or len(a['blocks']) != len(b['blocks']):
             continue    # reported by S21-iso
         fname = a['def'].rsplit('::', 1)[-1]
-        constructor = fname in CONSTRUCTOR_FNS or '{closure' in fname and any(('::' + c + '::') in a['def'] for c in CONSTRUCTOR_FNS)
+        constructor = fname in CONSTRUCTOR_FNS or '{closure' in fname and any(('::' + c + '::') in a['def'] for c in CONSTRUCTOR_FNS) or constructor_like(a['def'])
         for ba, bb in zip(a['blocks'], b['blocks']):
             sites = []
             for sa, sb in zip(ba['stmts'], bb['stmts']):
                 if sa['s'] == 'assign' and sa['rv'].get('r') == 'cast' and sb['rv'].get('r') == 'cast' and sa['rv']['to'] != sb['rv']['to']:
                     frm = sa['rv']['from']
+                    if sa['rv'].get('kind', '').startswith('PointerCoercion') or frm.startswith('fn(') or sa['rv']['to'].startswith('fn('):
+                        continue        # a function item coerced to a function pointer: the PeriodType in its signature is not a value
                     if frm == 'bool':
                         r.inst('%s|cast bool' % a['def'], False)
                         continue
@@ -213,7 +240,7 @@ def s21_ops(ctx):
     for d in sorted(caps):
         fname = d.rsplit('::', 1)[-1]
         r.inst('%s|capacity-constant' % d)
-        if fname not in CONSTRUCTOR_FNS:
+        if fname not in CONSTRUCTOR_FNS and not constructor_like(d):
             r.violate('%s|capacity-constant|step-function' % d, '%s compares against a PeriodType::MAX-derived constant %s outside a constructor / '
                       'validate / deserialize function: behaviour depends on the width for parameters that fit' % (d, caps[d][:2]))
     r.info['sensitive_sites'] = n_sens
